@@ -814,14 +814,24 @@ class DBusObjectHandler :
                 msg.interface == 'org.freedesktop.DBus.ObjectManager'
                 and msg.member == 'GetManagedObjects'
         ):
-            i_and_p = self.getManagedObjects(o.getObjectPath())
+            try:
+                i_and_p = self.getManagedObjects(o.getObjectPath())
 
-            r = message.MethodReturnMessage(
-                msg.serial,
-                body=[i_and_p],
-                destination=msg.sender,
-                signature='a{oa{sa{sv}}}',
-            )
+                r = message.MethodReturnMessage(
+                    msg.serial,
+                    body=[i_and_p],
+                    destination=msg.sender,
+                    signature='a{oa{sa{sv}}}',
+                )
+            except Exception as e:
+                # a property value that cannot be encoded must not cost the
+                # caller its reply (nor this connection its life)
+                self._send_err(
+                    msg,
+                    'org.txdbus.PythonException.' + e.__class__.__name__,
+                    str(e),
+                )
+                return
 
             self.conn.sendMessage(r)
 
